@@ -154,14 +154,29 @@ func (p *Program) resetClauseChecks(c *Contract) {
 
 // VerifyFuncRebinding is VerifyFunc with hint repair: discharged(obligations) must say whether every obligation
 // (vacuity canaries aside) is proved.
-func (p *Program) VerifyFuncRebinding(fi *FuncInfo, discharged func([]*Obligation) bool) *FuncResult {
+func (p *Program) VerifyFuncRebinding(fi *FuncInfo, failures func([]*Obligation) int) *FuncResult {
+	discharged := func(obs []*Obligation) bool { return failures(obs) == 0 }
+	_ = discharged
+	var best *FuncResult
+	bestN := -1
+	var bestLoops map[int]*LoopSpec
+	var bestRen map[string]string
+	consider := func(r *FuncResult, n int, note string) {
+		if bestN < 0 || n < bestN {
+			bestN = n
+			best = r
+			bestLoops = fi.C.Loops
+			bestRen = fi.C.LocalRen
+			best.Assumed = append(best.Assumed, note)
+		}
+	}
 	res := p.VerifyFunc(fi)
 	if fi.C == nil || len(res.Unsupported) == 0 {
 		return res
 	}
 	mismatch := false
 	for _, u := range res.Unsupported {
-		if strings.Contains(u, "does not type-check") || strings.Contains(u, "contract names loop") || strings.Contains(u, "was never reached by the symbolic execution") {
+		if strings.Contains(u, "does not type-check") || strings.Contains(u, "contract names loop") || strings.Contains(u, "was never reached by the symbolic execution") || strings.Contains(u, "has no value") {
 			mismatch = true
 		}
 	}
@@ -216,16 +231,29 @@ func (p *Program) VerifyFuncRebinding(fi *FuncInfo, discharged func([]*Obligatio
 			if len(r2.Unsupported) > 0 {
 				continue
 			}
-			if discharged(r2.Obligations) {
-				var parts []string
-				for _, o := range ords {
-					if m[o] != o {
-						parts = append(parts, fmt.Sprintf("loop %d -> loop %d", o, m[o]))
-					}
+			nf := failures(r2.Obligations)
+			var parts []string
+			for _, o := range ords {
+				if m[o] != o {
+					parts = append(parts, fmt.Sprintf("loop %d -> loop %d", o, m[o]))
 				}
-				r2.Assumed = append(r2.Assumed, fmt.Sprintf("loop hints of %s were written for other loop ordinals (a loop was added or removed); applied as %s (accepted because every obligation of the function discharges this way; a wrong assignment could only fail)", r2.Func, strings.Join(parts, ", ")))
+			}
+			note := fmt.Sprintf("loop hints of %s were written for other loop ordinals (a loop was added or removed); applied as %s (a wrong assignment could only fail)", r2.Func, strings.Join(parts, ", "))
+			if nf == 0 {
+				r2.Assumed = append(r2.Assumed, note)
 				return r2
 			}
+			consider(r2, nf, note)
+		}
+		if best != nil {
+			// no assignment discharges everything, but one type-checks: report what fails under the best one (the
+			// hints as written do not even apply to the function any more)
+			fi.C.Loops = bestLoops
+			fi.C.LocalRen = bestRen
+			p.resetClauseChecks(fi.C)
+			r := p.VerifyFunc(fi)
+			r.Assumed = append(r.Assumed, best.Assumed[len(best.Assumed)-1])
+			return r
 		}
 		fi.C.Loops = orig
 		p.resetClauseChecks(fi.C)
